@@ -31,14 +31,13 @@ NaN / negative / infinite utilities and generator outputs outside [0,1) are outs
 
 What is FALSE of the code as written / observations (witnesses in section 5)
 ---------------------------------------------------------------------------
-* N5  a headless nested region reports utility `Utility{} * sub = 0` (`S_<EmptyT>::wrapUtility`), while
-      a headed state's default `utility()` is 1: `utilize`/utilitarian `change` never prefers it to a
-      sub-state of positive utility.  The property text does not define an anonymous head's utility:
-      recorded as an observation (`headless_region_reports_zero`, `witness_N5`).
-      NOT harmless under `randomize`: when the only top-rank candidates of a Random region are headless
-      nested regions (anonymous head: rank 0, utility 0), nothing is selected although every `utility()`
-      answer is positive — `INVALID_PRONG`, `HFSM2_BREAK`, and an out-of-bounds read of `utilities[255]` in
-      the nested case (`witness_headless_random_selects_nothing`; new finding).
+* N5  (HISTORY — repaired in /repo by `fix: an anonymous region head reports the default utility, not zero`)
+      a headless nested region used to report utility `Utility{} * sub = 0` while a headed state's default
+      `utility()` is 1; under `randomize` this made a Random region whose only top-rank candidates were
+      headless nested regions select nothing although every `utility()` answer was positive
+      (`INVALID_PRONG`, `HFSM2_BREAK`, and an out-of-bounds read `utilities[255]` in the nested case; found
+      by this proof effort, confirmed with UBSan).  Now `S_<EmptyT>::wrapUtility` returns `Utility{1}`:
+      `headless_region_reports_default`, `witness_N5_repaired`, `witness_headless_random_repaired`.
 * O1  `deepReportChange` of a SELECTABLE region resolves by resumable-or-0 and never calls `select()`,
       while `deepRequestChange` of the same region calls `select()` (`reportChange_selectable_ignores_select`).
 * O2  a utilitarian/random `change` (and `utilize`, `randomize`) marks ALL candidates' nested regions
@@ -369,13 +368,13 @@ theorem treeSum_exact (top : Int) (us : List Rat) (rks : List Int) (hlen : us.le
 
 /-! ## 5. observations and witnesses (closed terms over `Int` utilities, checked by `decide`) -/
 
-/-- N5 in general: a headless nested region's reported utility is `Utility{} × (best sub)`; no decision is
-consumed for the anonymous head. -/
-theorem headless_region_reports_zero (id rid inj : Nat) (st : Strategy) (a r q : Option Nat) (m : Bool)
+/-- An anonymous head counts as the default utility 1 (N5 repaired): a headless nested region's reported
+utility is `Utility{1} × (best sub)`; no decision is consumed for the anonymous head. -/
+theorem headless_region_reports_default (id rid inj : Nat) (st : Strategy) (a r q : Option Nat) (m : Bool)
     (s : Subs) (σ : Sig U) :
     (Node.compo id rid inj false st a r q m s).utilizeSpec σ =
       (match argMax (s.utilizeSpecAll σ).1 with
-        | some (_, u) => mul zero u
+        | some (_, u) => mul one u
         | none => zero,
        (s.utilizeSpecAll σ).2) := by
   rw [utilize_value_compo]; rfl
@@ -384,30 +383,28 @@ theorem headless_region_reports_zero (id rid inj : Nat) (st : Strategy) (a r q :
 def world (ds : List (Decision Int)) (rng : List Int) : World Int :=
   { cfg := { logging := false, history := false }, ds := ds, rng := rng }
 
-/-- N5 witness: Utilitarian region `[headless {x}, y]`; `x` answers 1000, `y` answers 1; `utilize` marks `y`
-(prong 1): the headless candidate's 1000 counts as 0 × 1000. -/
-theorem witness_N5 :
+/-- N5 repaired, witness: Utilitarian region `[headless {x}, y]`; `x` answers 1000, `y` answers 1; `utilize`
+marks the headless candidate (prong 0): 1 × 1000 > 1.  (Before the repair it marked `y`.) -/
+theorem witness_N5_repaired :
     ((Node.compo 0 0 0 true .utilitarian none none none false
         (.cons false (.compo 1 1 0 false .composite none none none false (.cons false (.leaf 2 0) .nil))
         (.cons false (.leaf 3 0) .nil))).request ⟨.utilize, none⟩
-      (world [[.retUtil 1000], [.retUtil 1]] [])).1.requested = some 1 := by decide +kernel
+      (world [[.retUtil 1000], [.retUtil 1]] [])).1.requested = some 0 := by decide +kernel
 
-/-- N5 is not harmless (NEW FINDING, confirmed on the real library with UBSan).  Random region
-`R {x, headless-random {y, z}}`: `x` answers rank −1, the anonymous head's rank is `Rank{}` = 0, so the only
-top-rank candidate is the headless region, whose computed utility is 0 × … = 0 although EVERY `utility()`
-answer is positive.  `resolveRandom` selects nothing: `compoRequested = INVALID_PRONG`, `HFSM2_BREAK()`,
-and when `R` itself is a candidate of an enclosing resolution (`deepReportChangeRandom`) the C++ then
-reads `utilities[INVALID_PRONG]` — index 255 of a 2-element array (UBSan: "index 255 out of bounds for
-type 'float [2]'", machine.hpp `deepReportChangeRandom`).
-Harness replay: shape `(C h1 i0 random (C h1 i0 random (L i0) (C h0 i0 random (L i0) (L i0))) (L i0))`, `op 0 new`
-with `cb 2 rank … RR:-1` (any positive utilities). -/
-theorem witness_headless_random_selects_nothing :
+/-- N5b repaired (regression witness).  Random region `R {x, headless-random {y, z}}`: `x` answers rank −1,
+the anonymous head's rank is `Rank{}` = 0, so the only top-rank candidate is the headless region.  Before the
+repair its computed utility was 0 × … = 0 although every `utility()` answer is positive, `resolveRandom`
+selected nothing (`INVALID_PRONG`, `HFSM2_BREAK`) and `deepReportChangeRandom` then read `utilities[255]`
+(UBSan: "index 255 out of bounds for type 'float [2]'").  Now it is 1 × 2 and prong 1 is selected.
+Harness replay of the old failure: shape `(C h1 i0 random (C h1 i0 random (L i0) (C h0 i0 random (L i0) (L i0))) (L i0))`,
+`op 0 new` with `cb 2 rank … RR:-1`. -/
+theorem witness_headless_random_repaired :
     let r := (Node.compo 1 1 0 true .random none none none false
         (.cons false (.leaf 2 0)
         (.cons false (.compo 3 2 0 false .random none none none false
             (.cons false (.leaf 4 0) (.cons false (.leaf 5 0) .nil))) .nil))).request ⟨.randomize, none⟩
-      (world [[.retRank (-1)], [.retRank 0], [.retRank 0], [.retUtil 2], [.retUtil 3]] [1, 1])
-    r.1.requested = none ∧ r.2.err = some "resolveRandom selected nothing" ∧ r.2.rng = [] := by decide +kernel
+      (world [[.retRank (-1)], [.retRank 0], [.retRank 0], [.retUtil 2], [.retUtil 3]] [0, 0])
+    r.1.requested = some 1 ∧ r.2.err = none ∧ r.2.rng = [] := by decide +kernel
 
 /-- O1: `deepReportChange` of a Selectable region is literally that of a Resumable one: it marks the
 resumable sub-state (or 0) and consumes no `select()` decision … -/
@@ -509,8 +506,8 @@ Theorems that constitute property C12 (for `Props/INDEX.json`):
         top_utilities_shape / treeSum_exact               the vectors the passes hand to resolveRandom
   (iv)  IEEE laws for Float32: trusted base (header comment)
   observations / witnesses:
-        headless_region_reports_zero, witness_N5                          N5
-        witness_headless_random_selects_nothing                           N5 consequence (new finding: INVALID_PRONG + out-of-bounds read)
+        headless_region_reports_default, witness_N5_repaired, witness_headless_random_repaired
+                                                                          N5 / N5b (repaired; regression witnesses)
         reportChange_selectable_ignores_select, request_selectable_calls_select    O1
         witness_losers_keep_marks, witness_stale_mark_used                O2 (new finding; replay in the doc comment)
         witness_all_zero_selects_nothing, witness_rank_filter             out-of-contract / ties
